@@ -62,14 +62,6 @@ def showEnv (w : World) (i : Nat) : String :=
 def showEnvs (w : World) : String :=
   "|".intercalate ((List.range w.stores.length).map (showEnv w))
 
-def junkResult : Nat → String
-  | 0 => "SE" | 4 => "SE" | 6 => "SE"
-  | 1 => "E:InvalidOperation"
-  | 2 => "E:InvalidOperation"
-  | 3 => "E:UnknownFunction"
-  | 5 => "E:BadSerialization"
-  | _ => "Invalid"
-
 def parseReg (s : String) : Option Nat :=
   if s = "B" then some builtin else s.toNat?
 
@@ -129,7 +121,7 @@ def stepTok (w : World) (tok : String) : World × String :=
       | some m => (r.1, s!"!loader-consulted-for-held-template:{m}:{showRes r.2}")
       | none => (r.1, showRes r.2)
     | none => (w, "bad-case")
-  | some "jk", some e => guard e fun _ => (w, junkResult ((num 2).getD 99))
+  | some "jk", some e => guard e fun _ => (w, "jk")  -- failing compiles/renders do not touch the store
   | some "th", some e => guard e fun _ =>
     -- the phase ends with a lookup of every name
     ((List.range 4).foldl (fun w n => (w.step compiles (.store e (.get n))).1) w, "ok")
